@@ -145,6 +145,62 @@ func Run(r *core.Run) {
 		mu.Unlock()
 	})
 
+	// (1b) large signer sets (|S| >= t+3) over a list of seeds: the sum of the partial signatures then
+	// exceeds (t+2)L for a sizeable fraction of nonce choices, which is where a reduction bug shows
+	type lc struct {
+		kc   keyCase
+		sub  []int
+		seed int
+	}
+	var large []lc
+	nSeeds := 24
+	if r.Tier == "thorough" {
+		nSeeds = 64
+	}
+	for _, kc := range kcs {
+		n := len(kc.keys)
+		if n < kc.t+3 {
+			continue
+		}
+		all := make([]int, n)
+		for i := range all {
+			all[i] = i
+		}
+		for sd := 0; sd < nSeeds; sd++ {
+			large = append(large, lc{kc, all, sd})
+		}
+	}
+	core.ParallelFor(len(large), w, func(i int) {
+		c := large[i]
+		keys := make([]edkg.LocalPartySaveData, len(c.sub))
+		for k, s := range c.sub {
+			keys[k] = c.kc.keys[s]
+		}
+		m := msgs[4+c.seed%2]
+		cfg := netrun.Config{Proto: netrun.EddsaSigning, EdKeys: keys, Threshold: c.kc.t, Msg: m.m, FullBytesLen: m.full, Seed: r.Seed*1000 + int64(c.seed), Label: fmt.Sprint("large", c.kc.name, c.seed)}
+		nw, err := netrun.New(cfg)
+		name := fmt.Sprintf("%s/all %d signers/nonce-seed=%d", c.kc.name, len(c.sub), c.seed)
+		if err != nil {
+			r.Violate("large-set/constructor-error", err.Error(), name)
+			return
+		}
+		_, e, pan := nw.RunFIFO()
+		r.Count("large_signer_set_runs", 1)
+		if e != nil || len(pan) > 0 {
+			r.Violate("large-set/error-or-panic", fmt.Sprint(e, pan), name)
+			return
+		}
+		for _, n := range nw.Nodes {
+			if len(n.Ends) != 1 {
+				r.Violate("large-set/no-result", "a signer did not finish", name)
+				return
+			}
+			for _, pr := range oracle.CheckEddsaSig(n.Ends[0].(*common.SignatureData), keys[0].EDDSAPub, m.m, m.full) {
+				r.Violate("large-set/"+pr.Key, pr.What, name)
+			}
+		}
+	})
+
 	// (2) schedules: all schedules for 2 and 3 signers (decomposed), FIFO + 1 deviation for 4 and 5
 	var states, trans, traces int
 	si := 0
